@@ -2,6 +2,7 @@ import CashewsVerif.Lemmas.MemStep
 import CashewsVerif.Lemmas.Sweep
 import CashewsVerif.Lemmas.TtlFacade
 import CashewsVerif.Lemmas.Fine
+import CashewsVerif.Lemmas.Routed
 /-
 C01 — the in-memory store is a TTL key-value map for every command history.
 Property theorems only; helper lemmas live in `Lemmas/`.
@@ -348,6 +349,44 @@ example : ((Mem.init 4).run [.set 0 (.tok 1) (some 1500) .always, .adv 1499, .ge
     ((Mem.init 4).run [.set 0 (.tok 1) (some (2 ^ 20 + 2 ^ 19)) .always]).1.getExpireR (2 ^ 20) 0 = 2 ∧
     ((Mem.init 4).run [.set 0 (.tok 1) (some (2 ^ 20 + 2 ^ 19)) .always, .adv (2 ^ 20)]).1.getExpireR (2 ^ 20) 0 = 0 := by
   decide
+
+/-- **get_many through a facade with two backends answers position by position.**  `Model/Routed.lean`:
+the facade groups the requested keys per backend (`r k` = key `k` is routed to the second one), asks each backend
+once for its group and reads the gathered answers out in the order of the request.  For two backends in *any*
+reachable states (each with its own history) and any request - keys of the two backends mixed in any order, repeated
+keys - the i-th answer is what a single-key `get` of the i-th key on the backend that owns it answers: the grouping is
+invisible.  (`get_many_positional` for each backend composed with `facadeGetMany_positional`.) -/
+theorem two_backends_get_many_positional (capa capb : Nat) (Ka Kb : List Key) (hKa : Ka.length ≤ capa) (hKb : Kb.length ≤ capb)
+    (opsa opsb : List Op) (hopsa : HistWithin Ka opsa) (hopsb : HistWithin Kb opsb) (r : Key → Bool) (ks : List Key)
+    (hks : ∀ k ∈ ks, if r k then k ∈ Kb else k ∈ Ka) :
+    let sa := ((Mem.init capa).run opsa).1
+    let sb := ((Mem.init capb).run opsb).1
+    facadeGetMany r sa.answers sb.answers ks = ks.map fun k => if r k then sb.answer1 k else sa.answer1 k := by
+  intro sa sb
+  apply facadeGetMany_positional
+  · have h := get_many_positional capa Ka hKa opsa hopsa (ks.filter fun k => !r k) (by
+      intro k hk
+      obtain ⟨h1, h2⟩ := List.mem_filter.mp hk
+      have := hks k h1
+      simpa [show r k = false by simpa using h2] using this)
+    simp only [Mem.answers, sa]
+    rw [h]
+    rfl
+  · have h := get_many_positional capb Kb hKb opsb hopsb (ks.filter r) (by
+      intro k hk
+      obtain ⟨h1, h2⟩ := List.mem_filter.mp hk
+      have := hks k h1
+      simpa [h2] using this)
+    simp only [Mem.answers, sb]
+    rw [h]
+    rfl
+
+/-- two backends (even keys / odd keys), a request that interleaves them and repeats a key: the answers come back in
+the order of the request -/
+example : let sa := ((Mem.init 4).run [.set 0 (.tok 0) none .always, .set 2 (.tok 2) (some 8) .always, .adv 8]).1
+    let sb := ((Mem.init 4).run [.set 1 (.tok 1) none .always, .set 3 (.keys [1]) none .always]).1
+    facadeGetMany (fun k => k % 2 = 1) sa.answers sb.answers [1, 0, 3, 2, 1] =
+      [some (.tok 1), some (.tok 0), some (.keys [1]), none, some (.tok 1)] := by decide
 
 /-! ### Non-vacuity: a concrete history meets the hypotheses and exercises the interesting states -/
 
